@@ -17,7 +17,7 @@ import (
 )
 
 // query kinds
-var kinds = []string{"projection", "analytic-select", "analytic-where", "fnkey-counting", "join", "tumbling", "global"}
+var kinds = []string{"projection", "analytic-select", "analytic-where", "fnkey-counting", "join", "tumbling", "global", "unnest", "regexp-digits", "regexp-alpha"}
 
 type Side struct {
 	Kind string    `json:"kind"`
@@ -30,6 +30,7 @@ type Case struct {
 	B          *Side `json:"b,omitempty"` // second instance (independence); nil = only caller-data checks
 	Order      []int `json:"order"`       // interleaving: 0 = next row of A, 1 = next row of B
 	Concurrent bool  `json:"concurrent"`  // feed the two instances from two goroutines
+	Repeat     int   `json:"repeat,omitempty"` // concurrent mode: each side's rows are fed this many times over (longer overlap)
 }
 
 func sqlOf(kind string) string {
@@ -46,13 +47,20 @@ func sqlOf(kind string) string {
 		return "SELECT id, a, m.name AS name FROM stream JOIN meta m ON k = m.k"
 	case "tumbling":
 		return "SELECT k, count(*) AS c, sum(a) AS sa, collect(id) AS ids FROM stream GROUP BY k, TumblingWindow('1s') " + et.With("ms", 0, 0)
+	case "unnest":
+		// unnest over an array of objects next to other columns (expanded on the asynchronous path only)
+		return "SELECT id, s, unnest(objs) AS o FROM stream"
+	case "regexp-digits":
+		return "SELECT id, regexp_replace(s, '[0-9]+', '#') AS r, upper(k) AS uk FROM stream"
+	case "regexp-alpha":
+		return "SELECT id, regexp_replace(s, '[a-z]+', '-') AS r, lower(k) AS lk FROM stream"
 	default:
 		return "SELECT k, count(*) AS c, collect(id) AS ids FROM stream GROUP BY k, GLOBAL WINDOW TRIGGER WHEN count(*) >= 2"
 	}
 }
 
 func syncable(kind string) bool {
-	return kind == "projection" || kind == "analytic-select" || kind == "analytic-where" || kind == "join"
+	return kind == "projection" || kind == "analytic-select" || kind == "analytic-where" || kind == "join" || kind == "regexp-digits" || kind == "regexp-alpha"
 }
 
 func genRows(t *rapid.T, label string, typed int) []gen.Row {
@@ -112,6 +120,9 @@ func genCase(t *rapid.T) Case {
 			}
 		}
 		c.Concurrent = rapid.IntRange(0, 2).Draw(t, "conc") == 0
+		if c.Concurrent {
+			c.Repeat = rapid.SampledFrom([]int{1, 1, 8, 30}).Draw(t, "repeat")
+		}
 	}
 	return c
 }
@@ -122,6 +133,12 @@ func engineRow(kind string, r gen.Row, i int) map[string]any {
 		m["a"] = r["a"].Go()
 	}
 	m["d"] = map[string]any{"x": r["dx"].Go(), "l": r["dl"].Go(), "m": map[string]any{"deep": []any{1, "two"}}}
+	if kind == "unnest" {
+		m["objs"] = []any{map[string]any{"p": i, "q": "a"}, map[string]any{"p": i + 1, "q": "b"}}
+	}
+	if kind == "regexp-digits" || kind == "regexp-alpha" {
+		m["s"] = fmt.Sprintf("dev%d-%s-%d", i, r["s"].Go(), i*7)
+	}
 	if kind == "tumbling" {
 		m["ts"] = et.Base + int64(i)*400 // in order, several windows
 	}
@@ -174,7 +191,7 @@ func (s *session) emit(row map[string]any, sync bool) {
 // finish emits the sentinel rows that act as barrier, waits, and checks caller data + retained sink rows.
 func (s *session) finish(n int) [][]map[string]any {
 	sent := func(id int, over map[string]any) map[string]any {
-		m := map[string]any{"id": id, "a": 1, "s": "zz", "k": "zz", "d": map[string]any{"x": 0, "l": []any{}}}
+		m := map[string]any{"id": id, "a": 1, "s": "zz", "k": "zz", "d": map[string]any{"x": 0, "l": []any{}}, "objs": []any{map[string]any{"p": -1}}}
 		for k, v := range over {
 			m[k] = v
 		}
@@ -274,20 +291,39 @@ func canon(kind string, ds [][]map[string]any, syncOut []map[string]any) string 
 	return fmt.Sprint(parts) + " sync=" + string(j)
 }
 
-func solo(side Side, label string, res *pbt.Result) (string, bool) {
+// expand builds the engine rows of one side: the generated rows, fed `rep` times over with fresh ids.
+func expand(side Side, rep int) []map[string]any {
+	if rep < 1 {
+		rep = 1
+	}
+	var out []map[string]any
+	for k := 0; k < rep; k++ {
+		for i, r := range side.Rows {
+			m := engineRow(side.Kind, r, k*len(side.Rows)+i)
+			if id, ok := m["id"].(int); ok {
+				m["id"] = id + k*1000
+			}
+			out = append(out, m)
+		}
+	}
+	return out
+}
+
+func solo(side Side, rep int, label string, res *pbt.Result) (string, bool) {
 	s := open(side.Kind, label, res)
 	if s == nil {
 		return "", false
 	}
-	for i, r := range side.Rows {
-		s.emit(engineRow(side.Kind, r, i), side.Sync)
+	rows := expand(side, rep)
+	for _, r := range rows {
+		s.emit(r, side.Sync)
 	}
-	out := s.finish(len(side.Rows))
+	out := s.finish(len(rows))
 	return canon(side.Kind, out, s.syncOut), true
 }
 
 func runCase(c Case) (res pbt.Result) {
-	soloA, ok := solo(c.A, "A alone", &res)
+	soloA, ok := solo(c.A, c.Repeat, "A alone", &res)
 	if !ok {
 		return
 	}
@@ -297,7 +333,7 @@ func runCase(c Case) (res pbt.Result) {
 		res.NonTrivial = derived
 		return
 	}
-	soloB, ok := solo(*c.B, "B alone", &res)
+	soloB, ok := solo(*c.B, c.Repeat, "B alone", &res)
 	if !ok {
 		return
 	}
@@ -310,16 +346,17 @@ func runCase(c Case) (res pbt.Result) {
 	if c.Concurrent {
 		var wg sync.WaitGroup
 		wg.Add(2)
+		ra, rb := expand(c.A, c.Repeat), expand(*c.B, c.Repeat)
 		go func() {
 			defer wg.Done()
-			for i, r := range c.A.Rows {
-				a.emit(engineRow(c.A.Kind, r, i), c.A.Sync)
+			for _, r := range ra {
+				a.emit(r, c.A.Sync)
 			}
 		}()
 		go func() {
 			defer wg.Done()
-			for i, r := range c.B.Rows {
-				b.emit(engineRow(c.B.Kind, r, i), c.B.Sync)
+			for _, r := range rb {
+				b.emit(r, c.B.Sync)
 			}
 		}()
 		wg.Wait()
@@ -336,8 +373,12 @@ func runCase(c Case) (res pbt.Result) {
 			}
 		}
 	}
-	pa := canon(c.A.Kind, a.finish(len(c.A.Rows)), a.syncOut)
-	pb := canon(c.B.Kind, b.finish(len(c.B.Rows)), b.syncOut)
+	rep := c.Repeat
+	if rep < 1 {
+		rep = 1
+	}
+	pa := canon(c.A.Kind, a.finish(len(c.A.Rows)*rep), a.syncOut)
+	pb := canon(c.B.Kind, b.finish(len(c.B.Rows)*rep), b.syncOut)
 	if pa != soloA {
 		res.Add(pbt.D("instances-interfere", "instance A (%s) alone delivers\n    %s\n  but next to instance B (%s) it delivers\n    %s", c.A.Kind, soloA, c.B.Kind, pa))
 	}
